@@ -1390,7 +1390,10 @@ def tensor_specs(ctx, rng):
     combos = [(d, ep) for d in DIRS for ep in (False, True)]
     specs = []
     # all ordered pairs of axis kinds at rank 2 (mixed end-point tuples in both orders)
-    for (a, b) in itertools.product(combos, repeat=2):
+    pairs = list(itertools.product(combos, repeat=2))
+    if ctx.quick:     # half of the ordered pairs per run (all 36 in the direct validation)
+        pairs = rng.sample(pairs, 18)
+    for (a, b) in pairs:
         M, N = rng.choice(sizes[:2])
         specs.append(dict(M=M, N=N, axes=[
             dict(kind="poly", d=a[0], ep=a[1], basis=rng.choice(["Cardinal", "Chebyshev"])),
